@@ -259,7 +259,7 @@ func c16(r *eng.Run) {
 	e1Evidence(r, 1, K, res, res2)
 	// E2 texts: ownership of returned trees / strings
 	var evals int64
-	ds := eng.GenDocs(r.Pick(3, 4), leafMenu, []string{`"a"`, `"` + U("0061") + `"`, `"` + "\\" + `tk"`, "\"\xff\""})
+	ds := eng.GenDocs(r.Pick(3, 4), leafMenu, []string{`"a"`, `"` + U("0061") + `"`, `"` + "\\" + `tk"`, "\"\xff\"", `"abcdefgh"`, `"xy` + "\\" + `nz"`})
 	all := ds.All()
 	eng.Parallel(len(all), func(i int) {
 		atomic.AddInt64(&evals, 1)
